@@ -8,6 +8,7 @@ def handle (line : String) : String :=
   | ["parse", d] => parseLine (unhex d)
   | ["rewrite", d] => rewriteLine (unhex d)
   | "scan" :: f :: _ :: entries => scanLine (unhex f) entries
+  | "recreateio" :: c :: rs :: ws :: _ :: entries => recreateIoLine (unhex c) rs ws entries
   | "codec" :: ops => (match parseOps ops with | some o => codecLine o | none => "bad-request")
   | "events" :: ops => (match parseOps ops with | some o => eventsLine o | none => "bad-request")
   | _ => "bad-request"
